@@ -567,6 +567,16 @@ func parseComment(l *syntax.Lexer) (bool, syntax.Token, error) {
 				quoteCount = 1
 			default:
 				multiCommentType = commentTypeSingle
+				// an empty comment: the line break (or the end of the text) right behind the
+				// colon ends it here - the loop below starts with the NEXT character, would step
+				// over the line break and take the whole following line for the comment
+				if c := l.GetCurrentChar(); c == syntax.RuneCR || c == syntax.RuneLF || c == syntax.RuneEOF {
+					return true, syntax.Token{
+						Type:     TypeComment,
+						StartIdx: startIdx,
+						EndIdx:   l.GetCursor(),
+					}, nil
+				}
 			}
 		} else {
 			return false, syntax.Token{}, nil
